@@ -1443,18 +1443,23 @@ func (c *control) dirTilde(colon, at bool, params []any) {
 
 func (c *control) dirCond(colon, at bool, params []any) {
 	n := -1
+	hasParam := false
 	if 0 < len(params) {
 		switch tp := params[0].(type) {
+		case nil:
+			// omitted, the selector is the next argument
 		case int:
 			n = tp
+			hasParam = true
 		case slip.Integer:
 			n = int(tp.RealValue())
+			hasParam = true
 		default:
 			c.invalidDir(c.str, c.pos)
 		}
 	}
 	var arg slip.Object
-	if colon || at || n < 0 {
+	if colon || at || !hasParam {
 		if c.argPos < len(c.args) {
 			arg = c.args[c.argPos]
 			c.argPos++
@@ -1482,7 +1487,7 @@ func (c *control) dirCond(colon, at bool, params []any) {
 			c.subProcess(strs[0])
 		}
 	default:
-		if n < 0 {
+		if !hasParam {
 			if no, ok := arg.(slip.Fixnum); ok {
 				n = int(no)
 			} else {
